@@ -7,10 +7,8 @@ Nothing here imports `traits` at module level (the engine activates a scratch
 build first); `world()` builds the classes that need traits lazily, once per
 process.
 """
-import cmath
 import math
 from fractions import Fraction
-import operator
 import re
 import sys
 import warnings
@@ -574,7 +572,6 @@ def opt_f(x):
 def build_trait(t, ctx):
     """TraitType / legacy handler object for the term."""
     import traits.api as T
-    import traits.trait_handlers as H
     if isinstance(t, str):
         simple = {"Any": T.Any, "Int": T.Int, "Float": T.Float, "Complex": T.Complex, "Str": T.Str,
                   "Bytes": T.Bytes, "Bool": T.Bool, "CInt": T.CInt, "CFloat": T.CFloat,
